@@ -48,7 +48,11 @@ def gen(ctx):
             elif r < 0.85:
                 items.append(item(n + rng.randrange(3)))
             elif r < 0.92:
-                items.append("x" + hx(rng.choice([b"1", b"null", b'{"id":0}', b'{"jsonrpc":"2.0","method":"m","params":[]}', b"[]", b'{"id":0,"result":1,"error":{"code":1,"message":""}}'])))
+                items.append("x" + hx(rng.choice([b"1", b"null", b'{"id":0}', b'{"jsonrpc":"2.0","method":"m","params":[]}', b"[]", b'{"id":0,"result":1,"error":{"code":1,"message":""}}',
+                                               # ErrorObject in serde's SEQUENCE form [code,message,data] (right length / too short / too long)
+                                               b'{"jsonrpc":"2.0","id":0,"error":[-32000,"m",null]}', b'{"id":1,"error":[7,"m",[1]]}',
+                                               b'{"jsonrpc":"2.0","id":0,"error":[-32000,"m"]}', b'{"jsonrpc":"2.0","id":0,"error":[-32000,"m",null,1]}',
+                                               b'["2.0",0,1]'])))
             else:
                 items.append(rng.choice(["z:r31", "x" + hx(b'{"jsonrpc":"2.0","id":1.5,"result":1}'), "s%s:r31" % hx(b"007")]))
         if rng.random() < 0.05:
@@ -174,7 +178,11 @@ def gen_single(ctx):
                 cases.append(("single", idk, pre, "%s:e7:%s:%s" % (sp, hx(b"m"), hx(b"[1]"))))
             for raw in (b"", b"{}", b"[]", b"hello", b'{"jsonrpc":"2.0","id":%d}' % pre, b'{"jsonrpc":"2.0","method":"m","params":[]}',
                         b'[{"jsonrpc":"2.0","id":%d,"result":1}]' % pre, b' {"jsonrpc":"2.0","id":%d,"result":1}' % pre,
-                        b'{"jsonrpc":"2.0","id":%d,"result":1,"error":{"code":1,"message":""}}' % pre, b'{"jsonrpc":"2.0","id":%d.0,"result":1}' % pre):
+                        b'{"jsonrpc":"2.0","id":%d,"result":1,"error":{"code":1,"message":""}}' % pre, b'{"jsonrpc":"2.0","id":%d.0,"result":1}' % pre,
+                        # ErrorObject in serde's SEQUENCE form [code,message,data]
+                        b'{"jsonrpc":"2.0","id":%d,"error":[-32000,"boom",null]}' % pre, b'{"jsonrpc":"2.0","id":%d,"error":[-32000,"boom",{"a":1}]}' % pre,
+                        b'{"jsonrpc":"2.0","id":%d,"error":[-32000,"boom"]}' % pre, b'{"jsonrpc":"2.0","id":%d,"error":[-32000,"boom",null,1]}' % pre,
+                        b'["2.0",%d,1]' % pre):
                 cases.append(("single-raw", idk, pre, "B" + hx(raw)))
     for _ in range(ctx.scale(300, 6000)):
         idk, pre = rng.choice("ns"), rng.choice([0, 0, 1, 2, 5, 40])
